@@ -14,6 +14,8 @@ def evOfJson (j : Json) : Except String Ev := do
   | "exit" => pure (.exit_ (← getNat j "n"))
   | "delete" => pure .delete
   | "send" => pure (.send (← getNat j "m"))
+  | "sendBegin" => pure (.sendBegin (← getNat j "m"))
+  | "sendEnd" => pure (.sendEnd (← getNat j "m"))
   | e => throw s!"event {e}"
 
 def jsonOfEv : Ev → Json
@@ -25,6 +27,8 @@ def jsonOfEv : Ev → Json
   | .exit_ n => Json.mkObj [("e", "exit"), ("n", Json.num (JsonNumber.fromNat n))]
   | .delete => Json.mkObj [("e", "delete")]
   | .send m => Json.mkObj [("e", "send"), ("m", Json.num (JsonNumber.fromNat m))]
+  | .sendBegin m => Json.mkObj [("e", "sendBegin"), ("m", Json.num (JsonNumber.fromNat m))]
+  | .sendEnd m => Json.mkObj [("e", "sendEnd"), ("m", Json.num (JsonNumber.fromNat m))]
 
 /-- Outcome of one event: what a peer can observe. -/
 def outcome (closed : List Nat) (s s' : St) : Ev → Json
@@ -37,31 +41,50 @@ def outcome (closed : List Nat) (s s' : St) : Ev → Json
         else Json.mkObj [("delivered", Json.num (JsonNumber.fromNat c))]
       | none => Json.mkObj [("failed", true)]
     else Json.mkObj [("failed", true)]
+  | .sendBegin _ =>
+    -- the lookup: either it fails at once or the send is now in flight
+    if s'.failed.length > s.failed.length then Json.mkObj [("failed", true)] else Json.mkObj [("inflight", true)]
+  | .sendEnd _ =>
+    if s'.crashed.length > s.crashed.length then Json.mkObj [("crashed", true)]
+    else if s'.failed.length > s.failed.length then Json.mkObj [("failed", true)]
+    else match s'.delivered.getLast? with
+      | some (c, _) =>
+        if closed.contains c then Json.mkObj [("delivered", "to-closed")]
+        else Json.mkObj [("delivered", Json.num (JsonNumber.fromNat c))]
+      | none => Json.mkObj [("failed", true)]
   | _ => Json.mkObj [("ok", true)]
 
 /-- All enabled schedules of length ≤ depth that end in a send, over `handlers` handler threads (canonical: handler k+1
     is opened only after handler k). -/
-partial def enumerate (f : Facts) (handlers depth : Nat) (maxSends : Nat) : List (List Ev) :=
+partial def enumerate (f : Facts) (handlers depth : Nat) (maxSends : Nat) (split : Bool := false) : List (List Ev) :=
   let rec go (s : St) (pref : List Ev) (d : Nat) (opened sends : Nat) : List (List Ev) :=
     if d = 0 then [] else
     let hsIdx := List.range handlers
     let cands : List Ev :=
       (if opened < handlers then [Ev.open_ opened] else []) ++
       hsIdx.flatMap (fun n => [Ev.flush n, Ev.store n, Ev.wake n, Ev.exit_ n, Ev.clientClose n]) ++
-      [Ev.delete] ++ (if sends < maxSends then [Ev.send (100 + sends)] else [])
+      [Ev.delete] ++
+      (if split then
+        (if sends < maxSends && s.inflight.isEmpty then [Ev.sendBegin (100 + sends)] else []) ++
+        s.inflight.map (fun p => Ev.sendEnd p.1)
+       else (if sends < maxSends then [Ev.send (100 + sends)] else []))
     cands.flatMap (fun e =>
       match step f s e with
       | none => []
       | some s' =>
         let pref' := pref ++ [e]
-        let here := match e with | .send _ => [pref'] | _ => []
+        let here := match e with
+          | .send _ => [pref']
+          | .sendEnd _ => [pref']
+          | .sendBegin _ => if s'.inflight.isEmpty then [pref'] else []
+          | _ => []
         -- a close/delete on a handler that is not there yet adds nothing
         let skip := match e with
           | .clientClose n => (s.hs n).cancelled || !(s.hs n).opened
           | .delete => s.table.isNone
           | _ => false
         if skip then [] else
-        here ++ go s' pref' (d - 1) (match e with | .open_ _ => opened + 1 | _ => opened) (match e with | .send _ => sends + 1 | _ => sends))
+        here ++ go s' pref' (d - 1) (match e with | .open_ _ => opened + 1 | _ => opened) (match e with | .send _ => sends + 1 | .sendBegin _ => sends + 1 | _ => sends))
   go {} [] depth 0 0
 
 def handle (op : String) (j : Json) : Except String Json := do
@@ -81,9 +104,10 @@ def handle (op : String) (j : Json) : Except String Json := do
     let hN ← getNat j "handlers"
     let d ← getNat j "depth"
     let ms ← getNat j "sends"
-    let all := enumerate f hN d ms
+    let split := (getBool j "split").toOption.getD false
+    let all := enumerate f hN d ms split
     pure (Json.mkObj [("schedules", Json.arr (all.toArray.map (fun evs => Json.arr (evs.toArray.map jsonOfEv)))),
-                      ("facts", Json.mkObj [("flushBeforeStore", f.flushBeforeStore), ("identityCheckOnExit", f.identityCheckOnExit)])])
+                      ("facts", Json.mkObj [("flushBeforeStore", f.flushBeforeStore), ("identityCheckOnExit", f.identityCheckOnExit), ("closedMarkOnExit", f.closedMarkOnExit)])])
   | _ => throw s!"streams: unknown op {op}"
 
 end Mcp.Drv.Streams
